@@ -262,6 +262,8 @@ def cases(tier):
         for k2 in ("sampled", "range", "set"):
             yield {"k": "mtag", "specs": [[k1, 0], [k2, 0]], "shape": [4, 3], "pos2d": True}
             yield {"k": "mtag", "specs": [[k1, 0], [k2, 0]], "shape": [4, 3], "pos2d": False}
+    for sub in ([0, 1, 2, 3, 5], [0, 2, 3], [1, 4]):
+        yield {"k": "closeticks", "ticks": sub}
     for kind in ("sampled", "range"):
         for dt in ("uint8", "int8", "int16", "uint16"):
             yield {"k": "mtag-int", "kind": kind, "dtype": dt}
@@ -631,6 +633,35 @@ def run_nondyadic(case, r):
         s.close()
 
 
+def run_closeticks(case, r):
+    """irregular ticks of large magnitude that lie closer together than 1e-5 of their value (event times around
+    1000 with a spacing of 1/256): every tick is a sample of its own"""
+    sub = case["ticks"]
+    c = [Fr(1000) + Fr(k, 256) for k in sub]
+    n = len(c)
+    s = S(r)
+    try:
+        data = np.arange(float(n)) + 1
+        da = s.b.create_data_array("d", "t", data=data)
+        da.append_range_dimension([float(x) for x in c])
+        tag = s.b.create_tag("tag", "t", [0.0])
+        tag.references.append(da)
+        regs = [(c[i], None) for i in range(n)] + [(c[i], c[j] - c[i]) for i in range(n) for j in range(i + 1, n)]
+        regs += [(c[i] + Fr(1, 1024), Fr(0)) for i in range(n - 1)]                    # between two ticks: nothing
+        regs += [(c[i] + Fr(1, 1024), c[i + 1] - c[i]) for i in range(n - 1)]          # from between i,i+1 to beyond i+1
+        for p, e in regs:
+            tag.position = [float(p)]
+            tag.extent = None if e is None else [float(e)]
+            for rn, rule in RULES:
+                sel = [select(c, p, e, rn)]
+                st, got = observe(lambda: tag.tagged_data(0, rule))
+                judge(r, "C08|tag|range-close-ticks|%s|%s" % ("point" if not e else "region", rn),
+                      "ticks %r, region [%r, +%r] (%s)" % ([float(x) for x in c], float(p), None if e is None else float(e), rn),
+                      data, sel, contained(c, p, e), st, got)
+    finally:
+        s.close()
+
+
 def run_multiref(case, r):
     """one tag (with units) referencing several arrays whose dimensions carry different unit prefixes"""
     kind = case["kind"]
@@ -680,6 +711,6 @@ def run_multiref(case, r):
 
 def run_case(case):
     r = R()
-    {"mtag-int": run_mtag_int, "units-mixed": run_units_mixed, "tag": run_tag, "units": run_units, "mtag": run_mtag, "feat": run_feat, "nondyadic": run_nondyadic,
+    {"closeticks": run_closeticks, "mtag-int": run_mtag_int, "units-mixed": run_units_mixed, "tag": run_tag, "units": run_units, "mtag": run_mtag, "feat": run_feat, "nondyadic": run_nondyadic,
      "multiref": run_multiref}[case["k"]](case, r)
     return r
